@@ -502,6 +502,11 @@ func (fr *frame) prepareCall(c *ssa.CallCommon, site ssa.Instruction) (Value, []
 	if c.IsInvoke() {
 		recv := fr.get(c.Value).(Iface)
 		if recv.t == nil {
+			if fr.in.eng.inInit && c.Method.Pkg() != nil && c.Method.Pkg().Path() == "reflect" {
+				// package-level `var t = reflect.TypeOf(x).Elem()` of an interpreted library: reflect calls are no-ops
+				// during package initialisation (the reflection-based paths that read these stay unsupported)
+				return &NativeFn{f: func(in *Interp, _ []Value) Value { return zero(c.Signature().Results()) }}, nil
+			}
 			panic(goPanic{val: "invalid memory address or nil pointer dereference (nil interface method call " + c.Method.Name() + ")", where: fr.in.where(site)})
 		}
 		m := fr.in.eng.lookupMethod(recv.t, c.Method)
